@@ -22,8 +22,8 @@ def expected_class(code: int, r: bool):
     from diameter.message.commands import all_commands
     from diameter.message import UndefinedMessage
     base = all_commands.get(code)
-    if base is None:
-        return UndefinedMessage
+    if base is None or base.__name__ in ("Message", "DefinedMessage", "UndefinedMessage"):
+        return UndefinedMessage         # (no command has this code -- also not code 0, the default of the generic bases)
     want = base.__name__ + ("Request" if r else "Answer")
     for sub in base.__subclasses__():
         if sub.__name__ == want:
@@ -82,7 +82,7 @@ def run_cases(res: Result, rng: random.Random, n_msgs: int, hdr_grid: bool, fail
         got_hdr = tuple(int(x) for x in toks[1:8])
         want_hdr = (ver, 20 + len(body), flags, code, app, hbh, e2e)
         base = all_commands.get(code)
-        if base is None:
+        if base is None or base.__name__ in ("Message", "DefinedMessage", "UndefinedMessage"):
             from diameter.message import UndefinedMessage as base  # noqa
         if sd["cls_by_id"].get(int(toks[0])) is not base:
             fails.append({"what": "plain decode did not use the registered class", "line": f"MSGDEC {hexs[:200]} 1", "real": r[:200]})
@@ -119,6 +119,12 @@ def run_cases(res: Result, rng: random.Random, n_msgs: int, hdr_grid: bool, fail
             ver = rng.choice(HDR_VALS["ver"])
             app, hbh, e2e = (rng.choice(HDR_VALS["u32"]) for _ in range(3))
             check_msg(ver, flags, code, app, hbh, e2e, [], True)
+    # … and the boundary application ids with both R values on every code (a class must not put its own default over a
+    # received 0)
+    for code in grid_codes:
+        for flags in (0x80, 0x00):
+            for app in (0, 2**32 - 1):
+                check_msg(1, flags, code, app, 1, 2, [], True)
     # 2. messages with 0..40 AVPs (repeats, nesting)
     msgs = []
     for i in range(n_msgs):
